@@ -72,9 +72,12 @@ def write_term(r):
 
 
 def struct_term(r):
+    def opt(h, ref):
+        return "None" if h == ref else "(Some %s)" % hexl(h)
+    re, re2 = r["re"], r.get("re2", "")
     return '("%s"%%string, %s, (%d, %d, %s), (%d, %d, %s), (%d, %s, %d, %s))' % (
-        r["name"], hexl(r["d"]), r["st"], r["ec"], hexl(r["re"]), r["sst"], r["sec"], hexl(r["sre"]),
-        r.get("st2", 0), hexl(r.get("re2", "")), r.get("sst2", 0), hexl(r.get("sre2", "")))
+        r["name"], hexl(r["d"]), r["st"], r["ec"], hexl(re), r["sst"], r["sec"], opt(r["sre"], re),
+        r.get("st2", 0), opt(re2, re), r.get("sst2", 0), opt(r.get("sre2", ""), re2))
 
 
 KINDS = {
